@@ -1,5 +1,6 @@
 import OnetVerif.Model.Util
 import OnetVerif.Model.C03Sha1
+import OnetVerif.Model.C03Wire
 import OnetVerif.Generated
 /-! Model for property C03 — wire integrity (core-only: no Mathlib import, so the driver links).
 
@@ -799,6 +800,8 @@ def parseKind : String → Option Kind
 * `iface <unm|tcp> <connection suite|nil> <value suite> <point|scalar> <length> <seed>` — a message with
   one point/scalar of the value suite, marshalled and then unmarshalled with the connection's suite
   (directly, or sent and received over a pair of `TCPConn`s): `same` / `differs`
+* `pb <schema> <buffer>` — layer 2: `protobuf.Decode` of the buffer into a struct of that schema
+  (`Model/C03Wire.lean`), the decoded value and its re-encoding by `protobuf.Encode`
 * `lloop <buffers> <n>` — the buffers are put as they are onto an in-memory connection into a
   router's receive loop; once they are consumed the sender closes the connection and calls `Send`
   `n` more times
@@ -894,6 +897,15 @@ def step (s : State) (toks : List String) : State × String :=
       -- assumption the generator checks), only their number does
       (s, if ifaceSame onetGens su kd (vs.make kd) (List.replicate n 0) then "same" else "differs")
     | _, _, _, _ => (s, "bad-op")
+  | ["pb", schema, buf] =>
+    -- `protobuf.Decode` of the buffer into a fresh struct of that schema, the value it yields and
+    -- what `protobuf.Encode` makes of that value
+    match Wire.Text.parseSchema schema, Util.unhex buf with
+    | some ts, some buf =>
+      match Wire.decode ts buf with
+      | none => (s, "err")
+      | some vs => (s, "ok (" ++ Wire.Text.showVals vs ++ ") " ++ Wire.Text.hexOf (Wire.encMsg 1 ts vs))
+    | _, _ => (s, "bad-op")
   | ["lloop", fr, after] =>
     match hexList fr, after.toNat? with
     | some fr, some n =>
